@@ -465,3 +465,278 @@ def run(ctx) -> None:
     _renorm(ctx, repo)
     _interp_twin(ctx, repo)
     _source_size(ctx, repo)
+
+
+# ---- added after the mutation sweep (sweepF): the scan-axis counter and the axis variable of the source-size filter,
+# ---- the overlap depth of the image-side filter, the grid arithmetic of Images.interpolate
+_inner_run_c16b = run
+
+
+def _run_deferring(ctx, steps, inner) -> None:
+    """Run the new rule groups, then the earlier rules; an AnalysisError of a new group is raised only afterwards, so
+    that a violation found by any rule decides the run and a lost anchor of one group does not hide the others."""
+    pending = None
+    for step in steps:
+        try:
+            step()
+        except AnalysisError as e:
+            pending = pending or e
+    inner(ctx)
+    if pending is not None:
+        raise pending
+
+
+def _loop_sources(loop: ast.For, f: FuncInfo) -> dict[str, tuple[str, ast.expr]]:
+    """loop variable -> (role, iterable) for `for a in X`, `for a, b in zip(X, Y)`, `for i, a in enumerate(X)`
+    (role 'index' for the counter of enumerate, else 'element')."""
+    out: dict[str, tuple[str, ast.expr]] = {}
+    t, it = loop.target, loop.iter
+    if isinstance(t, ast.Name):
+        out[t.id] = ("element", it)
+    elif isinstance(t, ast.Tuple) and isinstance(it, ast.Call) and call_name(it) == "zip" and len(it.args) == len(t.elts) \
+            and all(isinstance(e, ast.Name) for e in t.elts):
+        for e, a in zip(t.elts, it.args):
+            out[e.id] = ("element", a)
+    elif isinstance(t, ast.Tuple) and isinstance(it, ast.Call) and call_name(it) == "enumerate" and len(t.elts) == 2 \
+            and all(isinstance(e, ast.Name) for e in t.elts) and it.args:
+        out[t.elts[0].id] = ("index", it.args[0])
+        out[t.elts[1].id] = ("element", it.args[0])
+    else:
+        raise AnalysisError(f"{f.qualname}: cannot read the loop header `{norm_text(loop.target)} in {norm_text(loop.iter)[:40]}`")
+    return out
+
+
+def _scan_loop(ctx, repo) -> None:
+    f = repo.function(MEAS, "_gaussian_source_size")
+    df = DataFlow(f.node)
+    loops = []
+    for lp in walk_no_nested(f.node):
+        if isinstance(lp, ast.For):
+            tests = [n for n in walk_no_nested(lp) if isinstance(n, ast.If) and n is not lp
+                     and _scan_test(n.test, df, df.cfg.node_of(n).idx) is not None]
+            if tests:
+                loops.append((lp, tests))
+    ctx.require(len(loops) == 1 and len(loops[0][1]) == 1,
+                f"{f.qualname}: expected one loop over the ensemble axes with one scan-axis test")
+    lp, (iff,) = loops[0]
+    pol = _scan_test(iff.test, df, df.cfg.node_of(iff).idx)
+    scan_body, other_body = (iff.body, iff.orelse) if pol else (iff.orelse, iff.body)
+    # (1) what is tested for membership in the scan axes is the axis *index*
+    t = iff.test
+    while isinstance(t, ast.UnaryOp):
+        t = t.operand
+    ctx.require(isinstance(t.left, ast.Name), f"{f.qualname}: the scan-axis test does not test a plain variable")
+    src = _loop_sources(lp, f)
+    ctx.require(t.left.id in src, f"{f.qualname}: the tested variable `{t.left.id}` is not a loop variable")
+    role, it = src[t.left.id]
+    node = df.cfg.node_of(lp).idx
+    hops = 0
+    while hops < 5:
+        if isinstance(it, ast.Call) and call_name(it) in ("tuple", "list") and len(it.args) == 1:
+            it = it.args[0]
+        elif isinstance(it, ast.Name):
+            d = df.single_def(node, it.id)
+            if d is None or d.kind != "assign" or d.value is None:
+                break
+            it, node = d.value, d.node
+        else:
+            break
+        hops += 1
+    is_range = isinstance(it, ast.Call) and call_name(it) == "range"
+    is_lengths = (dotted(it) or "").split(".")[-1].endswith("shape")
+    if role == "index" or is_range:
+        ctx.ok("R-SRCAXES", f"{f.qualname}:tested axis", f.loc(iff.test), "membership in the scan axes is tested for the "
+               "axis index")
+    elif is_lengths:
+        ctx.violation("R-SRCAXES", f"{f.qualname}:tested axis", f.loc(iff.test),
+                      f"`{norm_text(iff.test)[:50]}` tests an element of `{norm_text(it)[:40]}` — the length of the axis, "
+                      "not its index — for membership in the scan axes: the Gaussian is applied along whichever axes "
+                      "happen to have a length that is a scan-axis number", key_detail="axis-variable")
+    else:
+        raise AnalysisError(f"{f.qualname}: the variable tested against the scan axes iterates `{norm_text(it)[:40]}`")
+    # (2) the subscript that picks sigma / scan sampling advances with the scan axes
+    idx_names = set()
+    for st in scan_body:
+        for n in ast.walk(st):
+            if isinstance(n, ast.Subscript) and isinstance(n.slice, ast.Name) and isinstance(n.value, (ast.Name, ast.Call)):
+                base = n.value.id if isinstance(n.value, ast.Name) else call_name(n.value)
+                if base in f.params or (base or "").split(".")[-1] == "_scan_sampling":
+                    idx_names.add(n.slice.id)
+    ctx.require(len(idx_names) == 1, f"{f.qualname}: the per-scan-axis subscripts use {sorted(idx_names) or 'no'} index "
+                                     "variable(s)")
+    i = idx_names.pop()
+    if i in src and i != t.left.id:
+        raise AnalysisError(f"{f.qualname}: the scan-axis subscript `{i}` is a loop variable; form not analysed")
+    if i == t.left.id:
+        ctx.violation("R-SRCAXES", f"{f.qualname}:scan counter", f.loc(iff), f"sigma and the scan sampling are subscripted "
+                      f"with the ensemble-axis index `{i}` itself, which is not the position among the scan axes as soon "
+                      "as a non-scan ensemble axis precedes a scan axis", key_detail="counter")
+        return
+    incs_scan = [s for st in scan_body for s in ast.walk(st) if isinstance(s, ast.AugAssign) and dotted(s.target) == i]
+    incs_other = [s for st in other_body for s in ast.walk(st) if isinstance(s, (ast.AugAssign, ast.Assign))
+                  and i in {dotted(x) for x in ([s.target] if isinstance(s, ast.AugAssign) else s.targets)}]
+    incs_loop = [s for s in walk_no_nested(lp) if isinstance(s, (ast.AugAssign, ast.Assign))
+                 and i in {dotted(x) for x in ([s.target] if isinstance(s, ast.AugAssign) else s.targets)}]
+    if any(isinstance(s, ast.Assign) for s in incs_loop):
+        raise AnalysisError(f"{f.qualname}: the scan-axis subscript `{i}` is assigned inside the loop (not a counter); "
+                            "form not analysed")
+    init = [d for d in df.reaching(df.cfg.node_of(lp).idx, i) if d.node not in df.cfg.loop_body_nodes(df.cfg.node_of(lp).idx)]
+    init_ok = len(init) == 1 and init[0].kind == "assign" and _fold(init[0].value) == 0
+    ctx.require(init_ok, f"{f.qualname}: the scan counter `{i}` does not start at 0 before the loop")
+    good = len(incs_scan) == 1 and isinstance(incs_scan[0].op, ast.Add) and _fold(incs_scan[0].value) == 1 \
+        and not incs_other and len(incs_loop) == 1
+    ctx.check(good, "R-SRCAXES", f"{f.qualname}:scan counter", f.loc(iff),
+              "the subscript of sigma / scan sampling starts at 0 and is advanced by 1 once per scan axis",
+              f"the subscript `{i}` of sigma / _scan_sampling is advanced "
+              f"{'nowhere' if not incs_loop else 'by ' + '; '.join(norm_text(s)[:30] for s in incs_loop)} "
+              "in the loop instead of by exactly one per scan axis (in the scan arm only): the second scan axis is "
+              "filtered with the first axis' sigma and sampling, so an anisotropic source no longer commutes with "
+              "the image-side filter", key_detail="counter")
+
+
+def _image_depth(ctx, repo) -> None:
+    g = repo.method(MEAS, "_BaseMeasurement2D", "gaussian_filter")
+    df = DataFlow(g.node)
+    calls = [c for c in walk_no_nested(g.node) if isinstance(c, ast.Call) and last_attr(c) == "map_overlap"]
+    ctx.require(len(calls) == 1, f"{g.qualname}: one map_overlap call expected")
+    c = calls[0]
+    kws = {k.arg: k.value for k in c.keywords if k.arg}
+    ctx.require("depth" in kws and "sigma" in kws, f"{g.qualname}: map_overlap without depth=/sigma=")
+    at = df.cfg.node_of(_stmt_of(g, c)).idx
+    e, node, hops = kws["depth"], at, 0
+    while isinstance(e, ast.Name) and hops < 4:
+        d = df.single_def(node, e.id)
+        if d is None or d.value is None:
+            break
+        e, node, hops = d.value, d.node, hops + 1
+    if isinstance(e, ast.Call) and call_name(e) in ("tuple", "list") and len(e.args) == 1:
+        e = e.args[0]
+    ctx.require(isinstance(e, (ast.GeneratorExp, ast.ListComp)) and len(e.generators) == 1,
+                f"{g.qualname}: the overlap depth is not a per-axis comprehension")
+    gen = e.generators[0]
+    ctx.require(isinstance(gen.iter, ast.Call) and call_name(gen.iter) == "zip" and isinstance(gen.target, ast.Tuple)
+                and len(gen.iter.args) == len(gen.target.elts) and all(isinstance(x, ast.Name) for x in gen.target.elts),
+                f"{g.qualname}: the depth comprehension does not run over zip(...)")
+    sig_name = dotted(kws["sigma"])
+    roles = {}
+    for x, a in zip(gen.target.elts, gen.iter.args):
+        roles[x.id] = "sigma" if dotted(a) == sig_name else ("length" if (dotted(a) or "").endswith("shape") else "?")
+    svars = [v for v, r in roles.items() if r == "sigma"]
+    ctx.require(len(svars) == 1, f"{g.qualname}: the depth comprehension does not iterate the per-axis sigma handed to "
+                                 "the filter")
+    from ..terms import Normalizer
+
+    def clip_hook(nz_, call):
+        # min(kernel radius, axis length) in either order: the clip does not change the term for long axes
+        if call_name(call) == "min" and len(call.args) == 2 and not call.keywords:
+            rest = [a for a in call.args if roles.get(dotted(a) or "") != "length"]
+            if len(rest) == 1:
+                return nz_.norm(rest[0])
+        return None
+
+    nz = Normalizer(identity_calls={"int", "np.ceil", "xp.ceil", "math.ceil", "float"}, call_hook=clip_hook)
+    p = nz.norm(e.elt)
+    ratio = (p * Poly.atom(svars[0]).inverse()).const_value()
+    trunc = _fold(kws.get("truncate")) if kws.get("truncate") is not None else 4.0
+    ctx.check(ratio is not None and ratio >= Fraction(str(trunc)), "R-SRCTWIN", f"{g.qualname}:overlap-depth", g.loc(e),
+              f"lazy overlap depth = ceil({ratio} * sigma_pixels) covers the truncation radius {trunc} * sigma",
+              f"the lazy arm of the image filter overlaps blocks by {p.key()[:60]} pixels, which is not >= {trunc} x the "
+              "per-axis sigma in pixels: blocks see a cut kernel, the lazily filtered image differs from the eager one "
+              "and from the source-size-filtered patterns integrated afterwards", key_detail="image-depth")
+    # the clip uses the axis length that belongs to that sigma
+    clip = [c2 for c2 in ast.walk(e.elt) if isinstance(c2, ast.Call) and call_name(c2) == "min" and len(c2.args) == 2]
+    for c2 in clip:
+        other = [dotted(a) for a in c2.args if dotted(a) in roles]
+        ctx.check(all(roles[o] == "length" for o in other), "R-SRCTWIN", f"{g.qualname}:overlap-clip", g.loc(c2),
+                  "the depth is clipped to the length of the axis",
+                  f"the depth is clipped with `{', '.join(o for o in other)}`, which does not iterate the array shape",
+                  key_detail="image-clip")
+
+
+def _image_grid(ctx, repo) -> None:
+    from ..rules.ratfun import Rat, RatFlow
+    from ..terms import Normalizer
+
+    f = repo.method(MEAS, "Images", "interpolate")
+    df = DataFlow(f.node)
+    rounding = {"int", "np.ceil", "xp.ceil", "math.ceil", "np.floor", "np.round", "round", "np.rint"}
+    # (1) gpts from a requested sampling: a comprehension over zip(sampling, self.extent)
+    n_found = 0
+    for st in walk_no_nested(f.node):
+        if not (isinstance(st, ast.Assign) and dotted(st.targets[0]) == "gpts"):
+            continue
+        v = st.value
+        if isinstance(v, ast.Call) and call_name(v) in ("tuple", "list") and len(v.args) == 1:
+            v = v.args[0]
+        if not (isinstance(v, (ast.GeneratorExp, ast.ListComp)) and len(v.generators) == 1):
+            continue
+        gen = v.generators[0]
+        if not (isinstance(gen.iter, ast.Call) and call_name(gen.iter) == "zip" and isinstance(gen.target, ast.Tuple)
+                and len(gen.iter.args) == 2 and len(gen.target.elts) == 2):
+            raise AnalysisError(f"{f.qualname}: cannot read the comprehension that turns a sampling into gpts")
+        role = {}
+        for x, a in zip(gen.target.elts, gen.iter.args):
+            role[dotted(a)] = dotted(x)
+        ctx.require("sampling" in role and "self.extent" in role, f"{f.qualname}: gpts are not computed from zip(sampling, "
+                                                                  "self.extent)")
+        nz = Normalizer(identity_calls=rounding)
+        got = nz.norm(v.elt)
+        want = Poly.atom(role["self.extent"]) * Poly.atom(role["sampling"]).inverse()
+        n_found += 1
+        off = (got - want).const_value()  # an additive constant of at most one point is a rounding convention
+        ctx.check(off is not None and abs(off) <= 1, "R-IMGGRID", f"{f.qualname}:gpts from sampling", f.loc(v),
+                  "points per axis = extent / requested sampling (rounded)",
+                  f"for a requested pixel size d over an extent l the number of points is {got.key()[:60]} (rounding "
+                  f"aside), not l / d: asking for the sampling the image already has does not give its own grid back, "
+                  "so the Fourier interpolation is not the identity there", key_detail="gpts")
+    ctx.require(n_found == 1, f"{f.qualname}: expected one conversion sampling -> gpts, found {n_found}")
+    # (2) the sampling the result is labelled with
+    stores = [st for st in walk_no_nested(f.node) if isinstance(st, ast.Assign) and isinstance(st.targets[0], ast.Subscript)
+              and isinstance(st.targets[0].slice, ast.Constant) and st.targets[0].slice.value == "sampling"]
+    ctx.require(len(stores) == 1, f"{f.qualname}: kwargs['sampling'] store not found")
+    at = df.cfg.node_of(stores[0]).idx
+    e, node, hops = stores[0].value, at, 0
+    while isinstance(e, ast.Name) and hops < 4:
+        d = df.single_def(node, e.id)
+        if d is None or d.value is None:
+            break
+        e, node, hops = d.value, d.node, hops + 1
+    ctx.require(isinstance(e, ast.Tuple) and len(e.elts) == 2, f"{f.qualname}: the published sampling is not a pair literal")
+    nzr = RatFlow(df, node)
+    nzr.no_inline = {"gpts"}
+    for k in (0, 1):
+        got = nzr.rat(e.elts[k])
+        want = nzr.rat(ast.parse(f"self.extent[{k}] / gpts[{k}]", mode="eval").body)
+        ctx.check(got == want, "R-IMGGRID", f"{f.qualname}:published sampling axis {k}", f.loc(e.elts[k]),
+                  f"sampling[{k}] = extent[{k}] / gpts[{k}]",
+                  f"the interpolated image is labelled with sampling[{k}] = {got.key()[:70]}, not extent[{k}] / gpts[{k}]: "
+                  "the extent of the image changes under interpolation and an interpolation to the same number of "
+                  "points does not return the input measurement", key_detail=f"sampling{k}")
+    # (3) both arms hand the same target shape and normalisation to fft_interpolate
+    seen = {}
+    for c in walk_no_nested(f.node):
+        if not isinstance(c, ast.Call):
+            continue
+        arm = None
+        if last_attr(c) == "map_blocks" and c.args and last_attr(c.args[0]) == "fft_interpolate":
+            arm, b = "lazy", {k.arg: k.value for k in c.keywords if k.arg}
+        elif last_attr(c) == "fft_interpolate":
+            arm, b = "eager", bind_args(c, repo.function("abtem.core.fft", "fft_interpolate"))
+        if arm:
+            seen[arm] = ({p: norm_text(b[p]) if p in b else "<default>" for p in ("new_shape", "normalization")}, c)
+    ctx.require(set(seen) == {"lazy", "eager"}, f"{f.qualname}: lazy/eager fft_interpolate calls not found")
+    ctx.check(seen["lazy"][0] == seen["eager"][0] == {"new_shape": "gpts", "normalization": "normalization"}, "R-IMGGRID",
+              f"{f.qualname}:fft arms", f.loc(seen["eager"][1]), "both arms interpolate to gpts with the caller's normalization",
+              f"fft_interpolate receives {seen['lazy'][0]} (lazy) / {seen['eager'][0]} (eager) instead of the requested "
+              "gpts and normalization in both arms", key_detail="arms")
+
+
+def run(ctx) -> None:  # noqa: F811
+    repo = ctx.repo
+    ctx.rule("R-IMGGRID", "Images.interpolate: a requested sampling d is turned into extent/d points per axis (up to "
+             "rounding), the result is labelled with sampling[k] = extent[k]/gpts[k] (so gpts*sampling = extent stays "
+             "invariant and the image's own sampling or gpts reproduces its own grid), and both the lazy and the eager "
+             "Fourier arm hand gpts and the caller's normalization to fft_interpolate — necessary for 'the Fourier method "
+             "returns the input unchanged at the same grid'")
+    _run_deferring(ctx, [lambda: _scan_loop(ctx, repo), lambda: _image_depth(ctx, repo), lambda: _image_grid(ctx, repo)],
+                   _inner_run_c16b)
